@@ -90,6 +90,20 @@ def run(pid, tier, seed, replay=None):
             fg = fault_plans if pid == "C15" else (c07_faults if pid == "C07" else None)
             scripts = coregen.gen_scripts(seed, n, kinds=prof["kinds"], faultgen=fg, prefix=pid + "r")
             scripts += gen_from_spec(pid, tier, seed, sc, rep)
+            if pid == "C01":
+                # the other object kinds of C01: signal and child-wait interests,
+                # events and raw events posted from other threads
+                import random as _r
+                import sigcheck
+                import mtcheck
+                rr = _r.Random(seed + 17)
+                k = 120 if tier == "quick" else 1500
+                for i in range(k):
+                    m = rr.choice(coregen.METHODS)
+                    scripts.append(sigcheck.gen_c10(rr, "C01s%d.%d" % (seed, i), m))
+                    scripts.append(sigcheck.gen_c11(rr, "C01w%d.%d" % (seed, i), m))
+                    scripts.append(mtcheck.random_mt_script(rr, "C01e%d.%d" % (seed, i), "C08", m, []))
+                    scripts.append(mtcheck.random_mt_script(rr, "C01r%d.%d" % (seed, i), "C09", m, []))
         idx = corerun.script_index(scripts)
         tfs = corerun.run_scripts(exe, scripts, sc, tag="run")
         verdicts, nev = vlib.validate_traces(tfs, sc)
